@@ -718,6 +718,12 @@ class Facts:
             self.by_name[fn.name].append(fn)
         self.adts = {a["path"]: a for a in self.j["adts"]}
         self.impls = self.j["impls"]
+        try:
+            from . import symex as _S
+            _S.KEEP_AS_ADT.clear()
+            _S.KEEP_AS_ADT.update(i["self"]["s"].split("<")[0] for i in self.impls if i.get("of_trait") and i.get("trait") == "std::fmt::Display" and not i.get("derived"))
+        except Exception:
+            pass
         self.closures = {c["key"]: c for c in self.j["closures"]}
         self.statics = self.j["statics"]
         self.unsafe_blocks = self.j["unsafe_blocks"]
